@@ -439,6 +439,8 @@ def compare_answer(ctx, item, ans, case):
         return
     if exp.get("d") is not None and a.get("d") != exp["d"]:
         ctx.disagree(rel_d, small, a.get("d"), exp["d"])
+    if a.get("sc", "1") != "1":
+        ctx.disagree("structural formula of the theorem (%s) = map_blocks derivation of the model" % fn, small, "sc=0", "sc=1")
     # shape = sums of the model's chunkss
     c = a.get("c", "-")
     mshape = tuple(sum(int(x) for x in ax.split(",")) for ax in c.split(";")) if c != "-" else ()
@@ -653,7 +655,7 @@ def direct_cases(ctx, n):
         if ex.mismatches:
             m = ex.mismatches[0]
             key = None
-            if kind == "mb_same2" and tuple(r.shape) != tuple(shape) and r.npartitions == 1:
+            if kind == "mb_same2" and tuple(r.shape) != tuple(shape):
                 # call site blockwise(align_arrays=False) + trigger: two operands with the same number of blocks along an
                 # axis but different lengths, the shorter one first
                 key = "map-blocks-tie-first-arg"
@@ -752,6 +754,7 @@ def attribute(p):
     ex, res, err = run_recorded(vals, optimize=False)
     byid = {c["id"]: c for c in calls}
     site = {}   # array name -> key
+    zero_site = set()
     for c in calls:
         fn, a, kw, res_ = c["fn"], c["args"], c["kwargs"], c["result"]
         if fn == "_qr_first_step":
@@ -764,6 +767,15 @@ def attribute(p):
             src = source_metas(c["raw_result"]) or []
             if len({s.chunks for s in src if s is not None}) > 1:
                 site[res_.name] = "stack-mixed-chunks"
+        elif fn == "blockwise" and kw.get("align_arrays", True):
+            # unify_chunks relies on rechunk, and rechunk is a no-op on zero-size arrays (_rechunk_plan): operands of
+            # a zero-size elementwise op can keep a chunking that differs from the output's
+            from blockshape import source_metas
+            src = [s for s in (source_metas(c["raw_result"]) or []) if s is not None]
+            if isinstance(res_, ArrayMeta) and 0 in res_.shape and any(0 in s.shape for s in src):
+                outc = set(res_.chunks)
+                if any(ch not in outc and ch != (1,) for s in src for ch in s.chunks):
+                    zero_site.add(res_.name)
         elif fn == "_map_blocks":
             parent = byid.get(c["parent"])
             if parent is not None and parent["fn"] == "arg_reduction":
@@ -771,8 +783,16 @@ def attribute(p):
                 if isinstance(ax, int) and ax < 0 and isinstance(res_, ArrayMeta):
                     site[res_.name] = "argreduce-negative-axis"
     keys, rest = set(), []
+    def nelems(shape):
+        n = 1
+        for x in shape:
+            n *= x
+        return n
     for m in ex.mismatches:
         k = site.get(m["array"])
+        if (k is None and m["array"] in zero_site and isinstance(m["block"], tuple) and isinstance(m["region"], tuple)
+                and nelems(m["block"]) == 0 and nelems(m["region"]) == 0):
+            k = "zero-size-rechunk-skipped"
         if k:
             keys.add(k)
         else:
@@ -900,6 +920,9 @@ TRIGGERS = {
     "stack-mixed-chunks": {"inputs": [{"shape": [2], "chunks": [2], "dtype": "int64", "data": "arange", "salt": 0},
                                       {"shape": [2], "chunks": [1], "dtype": "int64", "data": "arange", "salt": 1}],
                            "ops": [{"op": "stack", "family": "stack", "in": [0, 1], "params": {"axis": 0}}], "outputs": [2]},
+    "zero-size-rechunk-skipped": {"inputs": [{"shape": [2, 0], "chunks": [1, 1], "dtype": "float64", "data": "arange", "salt": 0},
+                                             {"shape": [2, 0], "chunks": [2, 1], "dtype": "float64", "data": "arange", "salt": 1}],
+                                  "ops": [{"op": "add", "family": "binary", "in": [0, 1], "params": {"_k": "binary"}}], "outputs": [2]},
     "argreduce-negative-axis": {"inputs": [{"shape": [6], "chunks": [3], "dtype": "int64", "data": "arange", "salt": 0}],
                                 "ops": [{"op": "argmax", "family": "argreduce", "in": [0],
                                          "params": {"axis": -1, "keepdims": False, "split_every": None}}], "outputs": [1]},
